@@ -61,6 +61,10 @@ func checkC11(c *Ctx) {
 	ruleUnreadTypestate(c, "C11.i")
 	c.rule("C11.j", "no allocation is sized by a number the peer announced", 4)
 	ruleNoWireSizedAlloc(c, "C11.j")
+	c.rule("C11.k", "every round of a parsing loop consumes input or leaves the loop", 10)
+	ruleParseLoopProgress(c, "C11.k", "imapclient", "internal")
+	c.rule("C11.l", "interface fields of delivered data that can hold the nil interface (NIL on the wire) are called through only after a non-nil test", 3)
+	ruleNilableIfaceFields(c, "C11.l", "imapclient", "")
 }
 
 // ruleZeroFromWire: C11.b.
